@@ -87,6 +87,9 @@ type genState struct {
 	nftAddr  string
 	jailed   map[int]bool
 	offender   int
+	clean      bool          // directed history: the oracle traffic carries no noise
+	leaver     int           // directed: answers like the majority, takes its whole stake back between its reveal and the tally
+	revealedAt map[int]int64 // height of a validator's latest reveal
 	wrong      map[int]int  // wrong answers a validator has committed to so far
 	gone       map[int]bool // validators that withdrew their whole stake
 	taken      map[int]int64 // units of power a validator took back
@@ -193,6 +196,22 @@ func GenHistory(seed uint64, idx int, p Profile) History {
 		gen.MaxMiss = 1
 		gen.Window = gen.VotePeriod * 6
 	}
+	g.leaver = -1
+	g.revealedAt = map[int]int64{}
+	if gen.FastUnbond && g.offender < 0 && r.Chance(45) {
+		// directed: a validator reveals the majority answer and has left staking (removed, not just unbonding) when the
+		// round is tallied; the vote window is long enough for reveal, undelegation, removal and tally to be four blocks
+		g.leaver = r.Intn(nv)
+		g.clean = true
+		if gen.VotePeriod < 4 {
+			gen.VotePeriod = 4
+		}
+		// the window is a multiple of the vote period (parameter validation)
+		gen.Window = gen.VotePeriod * uint64(1+r.Intn(3))
+		if gen.MaxMiss >= gen.Window {
+			gen.MaxMiss = gen.Window - 1
+		}
+	}
 	g.h.Genesis = gen
 	for i := nv; i < nv+4; i++ {
 		g.users = append(g.users, i)
@@ -234,10 +253,13 @@ func (g *genState) importedGenesis() {
 		method, contract := "native", ""
 		if r.Chance(8) {
 			method = "weird"
-		} else if r.Chance(15) {
+		} else if r.Chance(30) {
 			// several weighted recipients paid through a token contract that is not the module's
 			method = "mintable_contract"
 			contract = append([]string{"", "zz"}, foreignContracts...)[r.Intn(len(foreignContracts)+2)]
+			if r.Chance(40) {
+				contract = foreignContracts[r.Intn(9)] // one that fails every call
+			}
 		}
 		denom := tenantDenoms[r.Intn(2)]
 		period := uint64(1 + r.Intn(6))
@@ -350,15 +372,23 @@ func (g *genState) settlementMsg() *Msg {
 			denom = []string{"!!", "", "ab", "9x", "u tok"}[r.Intn(5)]
 		}
 		kind := "create_tenant"
-		if g.p.Mint && r.Chance(35) {
+		if g.p.Mint && (r.Chance(35) || g.p.Faults && r.Chance(25)) {
 			kind = "create_tenant_mc"
 		}
 		m := &Msg{Kind: kind, Sender: g.userFor(uint64(len(g.tenants) + 1)), Denom: denom, Period: g.period()}
-		if kind == "create_tenant_mc" && r.Chance(30) {
+		if kind == "create_tenant_mc" && (r.Chance(30) || g.p.Faults && r.Chance(45)) {
 			// the tenant names its own token contract: any address will do for the module, among them the
 			// addresses the EVM reserves (precompiles) and addresses that hold no code
 			m.Contract = foreignContracts[r.Intn(len(foreignContracts))]
+			if g.p.Faults && r.Chance(50) {
+				// a token contract that fails every call is a payout fault that never heals
+				m.Contract = foreignContracts[r.Intn(9)]
+			}
 			m.Period = uint64(1 + r.Intn(3))
+			if !g.p.Internal {
+				// recipients come from the oracle only: a record must outlive a voting round to have any when it matures
+				m.Period += 2 * g.h.Genesis.VotePeriod
+			}
 			if g.p.Adversarial && r.Chance(10) {
 				m.Contract = []string{"0x12", "zz", "0x", "0X0000000000000000000000000000000000000001"}[r.Intn(4)]
 			}
@@ -408,6 +438,10 @@ func (g *genState) settlementMsg() *Msg {
 			m.Tok = fmt.Sprintf("0x%x", tok)
 			if r.Chance(10) {
 				m.Tok = "0x" + strings.Repeat("0", r.Intn(4)) + fmt.Sprintf("%X", tok)
+			}
+			if r.Chance(8) {
+				// a token id beyond 160 bits whose low 160 bits name a minted token: another token, owned by nobody
+				m.Tok = "0x" + []string{"1", "ff", "8000000000000000000000"}[r.Intn(3)] + fmt.Sprintf("%040x", tok)
 			}
 		} else {
 			m.Chain = g.h.Genesis.Chains[r.Intn(len(g.h.Genesis.Chains))]
@@ -625,34 +659,37 @@ func (g *genState) oracleMsgs() []Event {
 	r := g.r
 	var out []Event
 	id, pe, ve := g.roundOf(g.height)
+	// in a directed history every validator answers in every block it may, correctly and under its own name: the
+	// random draws are made all the same (one stream per history), their noise is dropped
+	noise := func(pct int) bool { c := r.Chance(pct); return c && !g.clean }
 	for v := 0; v < g.nVals; v++ {
-		if !r.Chance(75) {
+		if !r.Chance(75) && !g.clean {
 			continue
 		}
 		feeder := v
 		if f, ok := g.feeders[v]; ok && r.Chance(70) {
 			feeder = f
 		}
-		if r.Chance(4) {
+		if noise(4) {
 			feeder = g.user() // stranger
 		}
-		if r.Chance(4) {
+		if noise(4) {
 			f := g.user()
 			out = append(out, Event{Kind: "otx", Msgs: []Msg{{Kind: "consent", Val: v, Feeder: f, ValUpper: r.Chance(15)}}})
 			g.feeders[v] = f
 			continue
 		}
-		if f, ok := g.feeders[v]; ok && r.Chance(6) {
+		if f, ok := g.feeders[v]; ok && noise(6) {
 			// take the delegation back: the operator names its own account; the former feeder keeps trying
 			out = append(out, Event{Kind: "otx", Msgs: []Msg{{Kind: "consent", Val: v, Feeder: v, ValUpper: r.Chance(15)}}})
 			delete(g.feeders, v)
 			g.former[v] = f
 			continue
 		}
-		if f, ok := g.former[v]; ok && r.Chance(35) {
+		if f, ok := g.former[v]; ok && noise(35) {
 			feeder = f
 		}
-		if g.height <= pe || r.Chance(5) {
+		if g.height <= pe || noise(5) {
 			if _, done := g.commits[v]; done && !r.Chance(10) {
 				continue
 			}
@@ -663,7 +700,7 @@ func (g *genState) oracleMsgs() []Event {
 					continue
 				}
 				owner := ownerPool[0]
-				if r.Chance(g.p.Wrongness) || v == g.offender {
+				if (noise(g.p.Wrongness) && v != g.leaver) || v == g.offender {
 					owner = ownerPool[1+r.Intn(len(ownerPool)-1)]
 					if v != g.offender && r.Chance(20) {
 						owner = ownerPool[0]
@@ -711,7 +748,7 @@ func (g *genState) oracleMsgs() []Event {
 				commit += strings.Join(d.Entries, "")
 			}
 			rid := id
-			if r.Chance(4) {
+			if noise(4) {
 				rid = id + uint64(2*g.h.Genesis.VotePeriod)
 			}
 			out = append(out, Event{Kind: "otx", Msgs: []Msg{{Kind: "prevote", Feeder: feeder, Val: v, Commit: commit, Round: rid, ValUpper: r.Chance(5)}}})
@@ -727,13 +764,14 @@ func (g *genState) oracleMsgs() []Event {
 			m := *vote
 			m.Feeder = feeder
 			m.ValUpper = r.Chance(12)
-			if r.Chance(5) {
+			if noise(5) {
 				m.Salt = m.Salt + "x" // does not open the commitment
 			}
-			if r.Chance(3) {
+			if noise(3) {
 				m.Round = id + 1
 			}
 			out = append(out, Event{Kind: "otx", Msgs: []Msg{m}})
+			g.revealedAt[v] = g.height
 			// the reveal is sometimes sent again (at once or in a later block of the window): a prevote opens once,
 			// under whatever spelling of the validator address the reveal used
 			if m.ValUpper && r.Chance(50) {
@@ -811,6 +849,18 @@ func (g *genState) block() {
 			to := g.user()
 			envs = append(envs, Env{Kind: "nft_transfer", From: g.nftOwner[tok], To: to, Token: tok})
 			g.nftOwner[tok] = to
+		}
+	}
+	if g.leaver >= 0 && !g.gone[g.leaver] {
+		_, lpe, lve := g.roundOf(g.height)
+		if at, ok := g.revealedAt[g.leaver]; ok && at > lpe && at < g.height && g.height+1 < lve && g.height > 2*int64(g.h.Genesis.VotePeriod) {
+			if g.height == at+1 {
+				// something to share out, so that the tally that follows has rewards to book
+				envs = append(envs, Env{Kind: "pool_fund", From: g.user(), Denom: "uusdc", Amount: "1000003"})
+			}
+			envs = append(envs, Env{Kind: "undelegate", Val: g.leaver, Amount: "0"})
+			g.gone[g.leaver] = true
+			g.jailed[g.leaver] = true
 		}
 	}
 	if g.offender >= 0 && !g.gone[g.offender] && g.height > int64(g.h.Genesis.Window) && g.closeWithin(1) && !g.closeWithin(0) {
